@@ -60,6 +60,20 @@ def sensitivity(ctx):
         print('thorough: seeded-defect corpus for %s: %s' % (ctx.prop, ', '.join('%s=%s' % kv for kv in sorted(summ.items()))))
     except Exception as e:      # never affects the verdict
         ctx.check.info['seeded_defect_corpus'] = {'error': str(e)[:200]}
+    try:
+        # whole-tree behaviour-preserving rewrites (reformat, rename every local, logging in every function, shifted lines,
+        # flipped comparisons, inverted if/else): this property's rules must stay silent on each
+        r = subprocess.run(['/venv/bin/python', os.path.join(verif, 'selftest', 'benign_transforms.py'), '--prop', ctx.prop,
+                            '--json', out], cwd=verif, env=env, capture_output=True, text=True, timeout=1500)
+        with open(out) as fh:
+            res = json.load(fh).get(ctx.prop, {})
+        ctx.check.info['behaviour_preserving_rewrites'] = {
+            'exit_code_per_rewrite': res, 'alarms': sorted(k for k, v in res.items() if v != 0),
+            'note': 'every production module rewritten on a scratch copy; exit 0 expected for each; informational'}
+        print('thorough: whole-tree behaviour-preserving rewrites for %s: %d applied, %d alarmed' % (
+            ctx.prop, len(res), sum(1 for v in res.values() if v != 0)))
+    except Exception as e:      # never affects the verdict
+        ctx.check.info['behaviour_preserving_rewrites'] = {'error': str(e)[:200]}
     finally:
         try:
             os.remove(out)
